@@ -276,6 +276,7 @@ class Host(utils.EventEmitter):
 
         self.hci_metadata = {}
         self.ready = False  # True when we can accept incoming packets
+        self.transport_lost = False  # True once the source reported the transport lost
         self.connections = {}  # Connections, by connection handle
         self.cis_links = {}  # CIS links, by connection handle
         self.bis_links = {}  # BIS links, by connection handle
@@ -669,6 +670,7 @@ class Host(utils.EventEmitter):
         self.hci_sink = sink
 
     def set_packet_source(self, source: TransportSource) -> None:
+        self.transport_lost = False
         source.set_packet_sink(self)
         self.hci_metadata = getattr(source, 'metadata', self.hci_metadata)
 
@@ -686,6 +688,11 @@ class Host(utils.EventEmitter):
     ) -> hci.HCI_Command_Complete_Event | hci.HCI_Command_Status_Event:
         # Wait until we can send (only one pending command at a time)
         await self.command_semaphore.acquire()
+
+        # No response will ever come from a transport that has been lost
+        if self.transport_lost:
+            self.command_semaphore.release()
+            raise TransportLostError('transport lost')
 
         # Create a future value to hold the eventual response
         assert self.pending_command is None
@@ -1006,6 +1013,7 @@ class Host(utils.EventEmitter):
 
     def on_transport_lost(self):
         # Called by the source when the transport has been lost.
+        self.transport_lost = True
         if self.pending_response:
             self.pending_response.set_exception(TransportLostError('transport lost'))
 
